@@ -53,6 +53,12 @@ structure St (K V : Type) where
   /-- newest first -/
   log : List Ev
 
+/-- number of `data.Less` calls recorded in a log -/
+def lessCount : List Ev → Nat
+  | [] => 0
+  | Ev.less _ _ _ :: t => lessCount t + 1
+  | Ev.swap _ _ :: t => lessCount t
+
 /-- the user's `less func(i, j int) bool`: may depend on contents and on the call history -/
 abbrev LessFn (K V : Type) := St K V → Nat → Nat → Bool
 
